@@ -1052,21 +1052,61 @@ func frSignedByKey(h *Hist, pub string, m *frWire) (known, ok bool) {
 // frAuthorised tells whether a free_allocation_request may debit the contract owner's wallet: the marker in the transaction
 // input names the sender as recipient, is signed by the key of an assigner the monitor saw registered, and carries a nonce that
 // assigner's markers have not used before (the monitor's own set; C04 is evaluated before C24 records the current transaction).
+//
+// A marker is an authorisation over its token amount, inside what the owner granted the assigner: the amount must be a positive
+// token amount within the individual limit of the assigner's registration in force (the last one the monitor saw applied), the
+// monitor's OWN running total of everything redeemed under that assigner's name since its FIRST registration plus this amount
+// must stay within the total limit in force, and the owner's wallet must not lose more than the marker's amount. Neither the
+// nonce set nor the running total is reset by a later registration of the same name: a registration states limits, it does not
+// hand spent markers back. The contract's stored CurrentRedeemed / RedeemedNonces play no part.
 func frAuthorised(h *Hist, o *TxnObs) bool {
 	if o.Txn.FunctionName != "free_allocation_request" {
 		return false
 	}
+	why := func(reason string) bool {
+		h.C("C04", "free_grant_not_authorised:"+reason)
+		return false
+	}
 	m := frDecode(o.Txn.InputData)
 	if m == nil || m.Recipient != o.Txn.ClientID {
-		return false
+		return why("no-marker-for-the-sender")
 	}
 	fm := frModelOf(h)
 	pub, reg := fm.Key[m.Assigner]
-	if !reg || fm.Nonces[m.Assigner][m.Nonce] {
-		return false
+	if !reg {
+		return why("assigner-never-registered")
 	}
-	known, ok := frSignedByKey(h, pub, m)
-	return known && ok
+	if fm.Nonces[m.Assigner][m.Nonce] {
+		return why("marker-nonce-redeemed-before")
+	}
+	if known, ok := frSignedByKey(h, pub, m); !known || !ok {
+		return why("not-signed-by-the-registered-key")
+	}
+	coin, okc := frCoin(m.FreeTokens)
+	if !okc || coin == 0 {
+		return why("marker-without-token-amount")
+	}
+	lim, okl := fm.Lim[m.Assigner]
+	if !okl {
+		return why("assigner-never-registered")
+	}
+	if coin > lim.Indiv {
+		return why("marker-above-individual-limit-in-force")
+	}
+	if sum := fm.Sum[m.Assigner]; sum+coin < sum || sum+coin > lim.Total {
+		return why("all-redemptions-plus-marker-above-total-limit-in-force")
+	}
+	if d := h.deltas(o)[h.S.StorageOwnerID()]; d < 0 && uint64(-d) > coin {
+		return why("owner-debited-above-marker-amount")
+	}
+	h.C("C04", "free_grants_judged_against_own_nonces_and_running_total")
+	if sum := fm.Sum[m.Assigner]; sum > 0 {
+		h.C("C04", "free_grants_after_earlier_redemptions_of_the_assigner")
+		if sum+coin == lim.Total {
+			h.C("C04", "free_grants_reaching_the_total_limit_in_force_exactly")
+		}
+	}
+	return true
 }
 
 // ---- directed scenario (C24, C04): redemptions OUT OF nonce order, then every redeemed marker again ------------------------------------
